@@ -131,6 +131,8 @@ def detect(name, props):
                 print("   ", l[:220])
     finally:
         sh("git checkout -- .", cwd="/repo")
+        # the runs above rewrote evidence and regenerated tables from the patched tree: restore the committed ones
+        sh("git checkout -- evidence lean/Narwhal/Generated", cwd=ROOT)
         sh("git -C /repo status --porcelain")
     save_meta(name, m)
     return 0
